@@ -1,6 +1,6 @@
 """C03 — no service before AAA accept; a reject leaves nothing allocated.
-Built: stage 1, the PPPoE gate (internal/pppoe + internal/ppp + pkg/ppp).  The IPoE gate and a RADIUS harness are
-not built (notes/C03.md); the RADIUS decision table is a model + theorem only."""
+Stage 1 PPPoE gate (internal/pppoe + internal/ppp + pkg/ppp), stage 2 IPoE gate (internal/ipoe with the real local
+DHCP providers and allocator registry), stage 3 RADIUS username-fallback gate + AAA verdict mapping."""
 import itertools
 
 ID = "C03"
@@ -9,6 +9,8 @@ HARNESSES = [
          files=[("internal/pppoe/zz_verif_c03_pppoe_test.go", "harness/C03/zz_verif_c03_pppoe_test.go")]),
     dict(name="ipoe", pkg="./internal/ipoe/", test="TestVerifC03IPoE", timeout=900,
          files=[("internal/ipoe/zz_verif_c03_ipoe_test.go", "harness/C03/zz_verif_c03_ipoe_test.go")]),
+    dict(name="radius", pkg="./plugins/auth/radius/", test="TestVerifC03Radius", timeout=300,
+         files=[("plugins/auth/radius/zz_verif_c03_radius_test.go", "harness/C03/zz_verif_c03_radius_test.go")]),
 ]
 VARIANTS = ["repaired", "defective"]
 MODEL_NEEDS_IMPL = True   # only for the FSM table flavour reported by the harness (see notes/C03.md)
@@ -23,6 +25,8 @@ RULE = ("pppoe: (a) systematic: each of 12 prefixes reaching a distinct phase/FS
         "REQUEST, RELEASE good/spoofed, server-sourced OFFER/ACK/NAK, SOLICIT, REQUEST6, RENEW, RELEASE6, AAA accept/reject/"
         "error for the current / an earlier / an unknown session id, dataplane completion ok/fail) x 3 probes, all event "
         "pairs after each prefix, and random walks with 1-3 subscribers and 1-3 IPv4 addresses. "
+        "radius: the whole table username-fallback x server answer {Accept, Reject, other code, none} x access type, through "
+        "the real provider and AAA component against a local RADIUS server. "
         "Non-trivial: a case in which at least one AAA answer is delivered and at least one service output or one "
         "gated (dropped) client packet occurs. Distinct: by case text.")
 TRUSTED = ["PPP option contents are abstracted to ack/nak/reject quality; addresses to {none,pool,static,fallback}",
@@ -216,8 +220,15 @@ def gen_ipoe(rng, tier, budget):
     return cases
 
 
+def gen_radius():
+    # the whole decision table, twice (the second pass runs on warmed-up connections and dead-server bookkeeping)
+    tbl = ["radius %d %s %s" % (fb, srv, at) for fb in (0, 1) for srv in ("accept", "reject", "other", "none")
+           for at in ("ipoe", "pppoe", "l2tp")]
+    return tbl + tbl[::-1]
+
+
 def gen_cases(rng, tier, budget):
-    return gen_pppoe(rng, tier, budget) + gen_ipoe(rng, tier, budget)
+    return gen_pppoe(rng, tier, budget) + gen_ipoe(rng, tier, budget) + gen_radius()
 
 
 # ------------------------------------------------------------------ verdict helpers
@@ -228,6 +239,8 @@ def steps(line):
 
 def nontrivial(case, out):
     t = case.split()
+    if t[0] == "radius":
+        return True
     if t[0] == "pppoe":
         return any(e.startswith("a:") for e in t[2:]) and ("I2" in out or "V2" in out or "|lA" in out)
     if t[0] == "ipoe":
@@ -249,6 +262,10 @@ def first_div(a, b):
 
 
 def classify(case, impl, model):
+    if case.startswith("radius"):
+        if " allow " in impl and " allow " not in model:
+            return "P", "AAA verdict Allowed=true without an Access-Accept for a resolved username: impl=%r model=%r" % (impl, model)
+        return "G", "radius/aaa verdict differs: impl=%r model=%r" % (impl, model)
     if "MON:VIOLATION" in impl:
         k = first_div(impl, model)
         ev = events(case)
@@ -295,6 +312,8 @@ def signature(case, impl, models):
 
 def shrink(case):
     t = case.split()
+    if t[0] == "radius":
+        return
     nh = 3 if t[0] == "ipoe" else 2
     head, ev = t[:nh], t[nh:]
     for i in range(len(ev)):
@@ -308,8 +327,12 @@ def distribution(cases, impl):
          "reached_network": 0, "reached_open": 0, "monitor_violations": 0, "gated_ncp_frames": 0, "panics": 0}
     d.update({"ipoe_cases": 0, "ipoe_events": 0, "ipoe_aaa": 0, "ipoe_offers": 0, "ipoe_acks": 0, "ipoe_replies": 0,
               "ipoe_monitor_violations": 0, "ipoe_gated": 0})
+    d["radius_cases"] = sum(1 for c in cases if c.startswith("radius"))
+    d["radius_allow"] = sum(1 for c, o in zip(cases, impl) if c.startswith("radius") and o and " allow " in o)
     for c, o in zip(cases, impl):
         t = c.split()
+        if t[0] == "radius":
+            continue
         if t[0] == "ipoe" and o is not None:
             d["ipoe_cases"] += 1
             d["ipoe_events"] += len(t) - 3
